@@ -392,8 +392,14 @@ class FKF:
         _assert_numerical_iterable(q, 'Quaternion')
         _assert_numerical_iterable(acc, 'Tri-axial accelerometer sample')
         _assert_numerical_iterable(mag, 'Tri-axial magnetometer sample')
-        ax, ay, az = acc / np.linalg.norm(acc)
-        mx, my, mz = mag / np.linalg.norm(mag)
+        a_norm = np.linalg.norm(acc)
+        m_norm = np.linalg.norm(mag)
+        if not a_norm > 0:
+            raise ValueError("Accelerometer sample must be non-zero.")
+        if not m_norm > 0:
+            raise ValueError("Magnetometer sample must be non-zero.")
+        ax, ay, az = acc / a_norm
+        mx, my, mz = mag / m_norm
         qw, qx, qy, qz = q
         # Dynamic magnetometer reference vector (eq. 4)
         mD = ax*mx + ay*my + az*mz
@@ -468,6 +474,12 @@ class FKF:
                            [ q_[2], -q_[0], -q_[1]],
                            [-q_[2],  q_[1], -q_[0]]])               # (eq. 24)
             Sigma_eps = (self.Dt/2.0)**2 * Xi @ Sigma_g @ Xi.transpose()   # Process noise covariance (eq. 23)
+            if not (np.linalg.norm(acc[t]) > 0 and np.linalg.norm(mag[t]) > 0):
+                # Null accelerometer or magnetometer sample: no measurement quaternion can be
+                # built. Propagate with the gyroscopes only and keep the covariance.
+                q = Phi @ q_
+                Q[t] = q / np.linalg.norm(q)
+                continue
             # MEASUREMENT MODEL
             qy, J = self.measurement_quaternion_acc_mag(q_, acc[t], mag[t])
             Sigma_v = J @ Sigma_am @ J.transpose()                  # Measurement quaternion's covariance (eq. 26)
